@@ -132,7 +132,7 @@ def run_shard(ctx):
     def test(case):
         check_case(ctx, case)
 
-    runner.drive(ctx, test, ctx.n(1200, 30000))
+    runner.drive(ctx, test, ctx.n(4800, 60000))
 
 
 def replay(ctx, case):
